@@ -27,6 +27,7 @@ import time
 VERIF = os.path.dirname(os.path.dirname(os.path.abspath(__file__)))
 REPO = os.environ.get("VERIF_REPO", "/repo")
 CACHE = os.path.join(VERIF, ".cache")
+OUTROOT = VERIF if REPO == "/repo" else os.environ.get("VERIF_ALT_OUT", "/tmp/verif-alt-out")   # runs against another tree never touch the committed evidence
 SPEC = os.path.join(VERIF, "spec")
 HARNESS = os.path.join(VERIF, "harness")
 GUARD = "LIBPHYSICA_VERIF"
@@ -73,7 +74,7 @@ def _gen_version(dst):
         fh.write(txt)
 
 
-def _prune_cache(keep=6):
+def _prune_cache(keep=30):
     try:
         ents = [os.path.join(CACHE, d) for d in os.listdir(CACHE) if d.startswith(("lib-", "har-"))]
     except FileNotFoundError:
@@ -83,7 +84,7 @@ def _prune_cache(keep=6):
     for e in libs[keep:]:
         shutil.rmtree(e, ignore_errors=True)
     hars = [e for e in ents if os.path.basename(e).startswith("har-")]
-    for e in hars[60:]:
+    for e in hars[240:]:
         shutil.rmtree(e, ignore_errors=True)
 
 
@@ -407,13 +408,13 @@ class Ctx:
         c["distinct_nontrivial"] = max(c["distinct_nontrivial"], len(self._distinct))
         if not c["samples"]:
             c["samples"] = ["(no sample recorded)"]
-        os.makedirs(os.path.join(VERIF, "evidence"), exist_ok=True)
+        os.makedirs(os.path.join(OUTROOT, "evidence"), exist_ok=True)
         rc = 0
         seen = set()
         for key, what in self.known:
             print("KNOWN-FINDING: property=%s %s [%s]" % (self.pid, what, key))
         if self.violations:
-            rdir = os.path.join(VERIF, "replays", self.pid)
+            rdir = os.path.join(OUTROOT, "replays", self.pid)
             os.makedirs(rdir, exist_ok=True)
             for i, (key, what, payload) in enumerate(self.violations):
                 if key in seen:
@@ -430,7 +431,7 @@ class Ctx:
         ev = {"property_id": self.pid, "tier": self.tier, "seed": self.seed, "level": "model_checking",
               "coverage": c, "assumptions": self.assumptions, "wall_s": round(wall, 2),
               "violations": len(seen), "known_findings_hit": [k for k, _ in self.known], "notes": self.notes}
-        with open(os.path.join(VERIF, "evidence", self.pid + ".json"), "w") as fh:
+        with open(os.path.join(OUTROOT, "evidence", self.pid + ".json"), "w") as fh:
             json.dump(ev, fh, indent=1, default=str)
         shutil.rmtree(self.work, ignore_errors=True)
         print("%s %s tier=%s seed=%d states=%d transitions=%d traces=%d replayed=%d wall=%.1fs" % (
